@@ -12,6 +12,10 @@ program = dict(attrs=[pattr], items=[item], sources={name: [item]}, sig=None | [
   bitem  = the items of gen/dl.py  ('clause' | 'cond' | 'gen' | 'agg' | 'neg')  | ('call', macro, [var])
   term   = dl terms ('v', x) ('c', n) ('f', fn, [x]) ('w',)  |  ('p', x)   (pattern argument ?x, body clauses only)
 
+Every attribute (pattr / rattr / oattr) may also be SPELLED: ('sp', lead, [segment], args) with lead = written with a leading `::`,
+args = None | ('list', open delimiter, token text) | ('eq', value text); the kinds above are short for one spelling each (as_sp).
+The model (coq/Check/AttrPaths.v) sees the spelling: recognised is decided on the whole path.
+
 Binders may carry the SHAPE of their pattern as one extra trailing element (absent = the plain identifier):
   ('let', x, fn, [y], shape)  ('iflet', x, pfn, [y], shape) [the pattern is Some(shape)]  ('gen', x, gn, [y], shape)
   ('agg', out, an, bound, rel, args, shape)  ('p', x, shape)
@@ -41,6 +45,92 @@ OATTR_TEXT = {"doc": '#[doc = "c15 doc"]', "allow": "#[allow(dead_code)]", "cfg"
 OATTR_KINDS = sorted(OATTR_TEXT)
 SIG_NAME = "C15Sig"
 
+# ------------------------------------------------------------------ attributes as data
+# segment numbers 0..3 of coq/Check/AttrPaths.v
+RECOGNISED = ["measure_rule_times", "generate_run_timeout", "inter_rule_parallelism", "ds"]
+FLAGS = RECOGNISED[:3]
+CLOSE = {"(": ")", "[": "]", "{": "}"}
+# token lists of a `ds` list: does syn parse them as DsAttributeContents = path (`:` tokens)?
+DS_TOKENS = {"ascent::rel": True, "::ascent::rel": True, "": False, "1 + 2": False, '"c15"': False}
+
+
+def sp(segs, lead=False, args=None):
+    return ("sp", bool(lead), list(segs), args)
+
+
+def is_sp(a):
+    return isinstance(a, (list, tuple)) and len(a) == 4 and a[0] == "sp"
+
+
+_LEGACY_SP = {
+    "measure_rule_times": sp(["measure_rule_times"]), "generate_run_timeout": sp(["generate_run_timeout"]),
+    "inter_rule_parallelism": sp(["inter_rule_parallelism"]), "ds": sp(["ds"], args=("list", "(", "ascent::rel")),
+    "unknown": sp(["c15_unknown_attr"]),
+    "known": sp(["allow"], args=("list", "(", "dead_code")), "allow": sp(["allow"], args=("list", "(", "dead_code")),
+    "doc": sp(["doc"], args=("eq", '"c15 doc"')), "cfg": sp(["cfg"], args=("list", "(", "all()")),
+}
+
+
+def as_sp(a, other="c15_unknown_attr"):
+    """the spelling of an attribute; `other` = the identifier the kinds 'other' / 'legacy' stand for at this position"""
+    if is_sp(a):
+        return ("sp", bool(a[1]), list(a[2]), None if a[3] is None else tuple(a[3]))
+    if a in ("other", "legacy"):
+        return sp([other])
+    return _LEGACY_SP[a]
+
+
+def sp_text(a, inner=False):
+    _, lead, segs, args = a
+    t = ("::" if lead else "") + "::".join(segs)
+    if args is not None:
+        t += ("%s%s%s" % (args[1], args[2], CLOSE[args[1]])) if args[0] == "list" else " = %s" % args[1]
+    return ("#![%s]" if inner else "#[%s]") % t
+
+
+def path_ident(a):
+    """syn::Path::get_ident of the attribute's path: the identifier, or None (leading `::` or several segments)"""
+    a = as_sp(a)
+    return a[2][0] if (not a[1] and len(a[2]) == 1) else None
+
+
+def is_named(a, name, other="c15_unknown_attr"):
+    return path_ident(as_sp(a, other)) == name
+
+
+def is_ds(a):
+    return is_named(a, "ds")
+
+
+def recognised(a):
+    """AscentConfig::new's recognized_attrs test: the path IS one of the four identifiers"""
+    return path_ident(a) in RECOGNISED
+
+
+def args_form(a):
+    a = as_sp(a)
+    return "none" if a[3] is None else (a[3][1] if a[3][0] == "list" else "=")
+
+
+def ds_list_ok(a):
+    """a `ds` attribute whose arguments the macro accepts: a list (any delimiter) whose tokens parse as a provider path"""
+    a = as_sp(a)
+    return a[3] is not None and a[3][0] == "list" and DS_TOKENS[a[3][2]]
+
+
+def pattr_text(a):
+    return sp_text(as_sp(a), inner=True)
+
+
+def rattr_text(a):
+    return sp_text(as_sp(a, "c15_unknown_attr"))
+
+
+def oattr_text(a, legacy="#[c15_made_up]"):
+    if a == "legacy":
+        return legacy
+    return sp_text(as_sp(a, "c15_made_up"))
+
 
 def item_attrs(it):
     """the attributes written in front of a rule / macro / include item, as a list of kinds"""
@@ -49,7 +139,7 @@ def item_attrs(it):
 
 
 def attrs_text(it, legacy):
-    return "".join((OATTR_TEXT.get(a) or legacy) + " " for a in item_attrs(it))
+    return "".join(oattr_text(a, legacy) + " " for a in item_attrs(it))
 
 
 # ------------------------------------------------------------------ pattern shapes
@@ -323,7 +413,7 @@ def rust_item_line(item):
     k = item[0]
     if k == "rel":
         _, name, tys, lat, attrs = item
-        return "%s%s %s(%s);" % ("".join(RATTR_TEXT[a] + " " for a in attrs), "lattice" if lat else "relation", name, ", ".join(tys))
+        return "%s%s %s(%s);" % ("".join(rattr_text(a) + " " for a in attrs), "lattice" if lat else "relation", name, ", ".join(tys))
     if k == "rule":
         return attrs_text(item, "#[c15_rule_attr]") + rust_rule(item[2])
     if k == "macro":
@@ -339,12 +429,12 @@ def sig_lines(p, name=SIG_NAME):
     sig = p.get("sig")
     if sig is None:
         return []
-    return ["".join(OATTR_TEXT[a] + " " for a in sig) + "pub struct %s;" % name]
+    return ["".join(oattr_text(a) + " " for a in sig) + "pub struct %s;" % name]
 
 
 def rust_lines(p):
     """one line per attribute / signature / item: the text between the braces of the macro"""
-    return [PATTR_TEXT[a] for a in p["attrs"]] + sig_lines(p) + [rust_item_line(i) for i in p["items"]]
+    return [pattr_text(a) for a in p["attrs"]] + sig_lines(p) + [rust_item_line(i) for i in p["items"]]
 
 
 def rust_text(p):
@@ -438,6 +528,9 @@ class CoqNames:
     def __init__(self):
         self.rel, self.mac, self.ty, self.var = Tab(), Tab(), Tab(), Tab(1)
         self.var.d["expr_replaced"] = 0
+        self.seg = Tab()                      # path segments of attributes: the recognised names are 0..3 (AttrPaths.v)
+        for n in RECOGNISED:
+            self.seg(n)
 
     def ident(self, x):
         m = re.fullmatch(r"(.+)_(|[1-9]\d*)", x)
@@ -511,8 +604,20 @@ def coq_hitem(h, N):
     return "HClause %d %d" % (N.rel(h[0]), len(h[1]))
 
 
-def coq_rattrs(kinds):
-    return clist("RDs" if a == "ds" else "ROther" for a in kinds)
+def coq_sattr(a, N, other="c15_unknown_attr"):
+    """the attribute as an AttrPaths.sattr: its path and the form of its arguments"""
+    _, lead, segs, args = as_sp(a, other)
+    if args is None:
+        ca = "ArgNone"
+    elif args[0] == "list":
+        ca = "ArgList %s" % ("true" if DS_TOKENS.get(args[2], False) else "false")
+    else:
+        ca = "ArgEq"
+    return "{| sa_path := {| ap_lead := %s; ap_segs := %s |}; sa_args := %s |}" % ("true" if lead else "false", clist(str(N.seg(x)) for x in segs), ca)
+
+
+def coq_rattrs(kinds, N, other="c15_unknown_attr"):
+    return clist(coq_sattr(a, N, other) for a in kinds)
 
 
 def coq_bare0(item, N):
@@ -521,23 +626,23 @@ def coq_bare0(item, N):
     if k == "rel":
         _, name, tys, lat, attrs = item
         # every attribute but ds is ROther for the macro (handed to the struct field); only rustc tells them apart
-        return coq_rattrs(attrs), "BRel %d %s %s" % (N.rel(name), clist(str(N.ty(t)) for t in tys), "true" if lat else "false")
+        return coq_rattrs(attrs, N), "BRel %d %s %s" % (N.rel(name), clist(str(N.ty(t)) for t in tys), "true" if lat else "false")
     if k == "rule":
         r = item[2]
-        return coq_rattrs(item_attrs(item)), "BRule {| s_heads := %s; s_body := %s |}" % (
+        return coq_rattrs(item_attrs(item), N, "c15_made_up"), "BRule {| s_heads := %s; s_body := %s |}" % (
             clist(coq_hitem(h, N) for h in r["heads"]), clist(coq_sitem(it, N, N.ident) for it in r["body"]))
     if k == "macro":
         _, _attrs, name, params, body = item
         pidx = {p: i for i, p in enumerate(params)}
         # a variable of the body that is not a parameter cannot be expressed in the model (see CheckModel.v): index out of range
         pv = lambda x: str(pidx.get(x, len(params) + 7))
-        return coq_rattrs(item_attrs(item)), "BMacro {| m_name := %d; m_nparams := %d; m_body := %s |}" % (
+        return coq_rattrs(item_attrs(item), N, "c15_made_up"), "BMacro {| m_name := %d; m_nparams := %d; m_body := %s |}" % (
             N.mac(name), len(params), clist(coq_sitem(it, N, pv) for it in body))
     raise ValueError(item)
 
 
 def coq_text(p, N=None):
-    """the program as a CheckModel.text: signature and items, each with the attributes written in front of it"""
+    """the program as an AttrPaths.stext: inner attributes, signature and items, each attribute as it is spelled"""
     N = N or CoqNames()
     items = []
     for it in p["items"]:
@@ -545,17 +650,17 @@ def coq_text(p, N=None):
             src = []
             for s in p["sources"][it[2]]:
                 if s[0] == "include":
-                    src.append("(%s, B1Include)" % coq_rattrs(item_attrs(s)))
+                    src.append("(%s, B1Include)" % coq_rattrs(item_attrs(s), N, "c15_made_up"))
                 else:
                     a, b = coq_bare0(s, N)
                     src.append("(%s, B1Plain (%s))" % (a, b))
-            items.append("(%s, BInclude %s)" % (coq_rattrs(item_attrs(it)), clist(src)))
+            items.append("(%s, SBInclude %s)" % (coq_rattrs(item_attrs(it), N, "c15_made_up"), clist(src)))
         else:
             a, b = coq_bare0(it, N)
-            items.append("(%s, BPlain (%s))" % (a, b))
+            items.append("(%s, SBPlain (%s))" % (a, b))
     sig = p.get("sig")
-    return "{| t_attrs := %s; t_sig := %s; t_items := %s |}" % (
-        clist(PATTR_COQ[a] for a in p["attrs"]), "None" if sig is None else "Some %s" % coq_rattrs(sig), clist(items)), N
+    return "{| st_attrs := %s; st_sig := %s; st_items := %s |}" % (
+        clist(coq_sattr(a, N) for a in p["attrs"]), "None" if sig is None else "Some %s" % coq_rattrs(sig, N, "c15_made_up"), clist(items)), N
 
 
 coq_program = coq_text
